@@ -30,6 +30,7 @@ FEATURES = [
     ("bare_flatten", re.compile(r"\bflatten\b(?!\()")),
     ("leaf_paths", re.compile(r"\bleaf_paths\b")),
     ("reverse", re.compile(r"\breverse\b")),
+    ("paths_filter_in", re.compile(r"\bpaths\(.*\bin\(")),
 ]
 
 
